@@ -113,6 +113,17 @@ Theorem c10_skipped_never_valid :
 Proof. exact skipped_never_valid. Qed.
 Print Assumptions c10_skipped_never_valid.
 
+(* The update-if-newer shortcut (allow-modified-outputs) is never taken on a recorded result that is not a successful
+   command value: the failed command is launched again. *)
+Theorem c10_failed_prior_never_shortcuts :
+  forall (t : tool) (a cu am oe : bool) (prior : option vkind) (ins : list vkind) (x : exec_result),
+    (forall v, prior = Some v -> is_successful v = false) ->
+    update_shortcut cu am oe prior ins = false /\
+    (cs_skip (if uses_inputs t then provide_all a ins else cs_init) = false ->
+     o_executes (run_command_prior t a false true cu am oe prior ins x) = true).
+Proof. exact failed_prior_never_shortcuts. Qed.
+Print Assumptions c10_failed_prior_never_shortcuts.
+
 (* The target task reports exactly the missing inputs. *)
 Theorem c10_target_reports_iff : forall vs : list vkind, target_reports vs = true <-> In VMissingInput vs.
 Proof. exact target_reports_iff. Qed.
